@@ -218,81 +218,112 @@ def describe(path, ev):
     return '%s `%s` (line %d)' % ('arm' if taken else 'else-arm after', compact(s.test)[:60], s.lineno)
 
 
+# solvers whose case analysis cannot be proved symmetric as one identity: the arms are proved mirror images of each other and the exclusiveness / exhaustiveness
+# of the cases is a stated assumption (one line of reason each)
+CASE_SPLIT_ASSUMED = {
+    'ducowicz': 'cases C and D are the two roots of one quadratic: that exactly one of them satisfies its sign conditions when A and B do not is a numeric fact; '
+                'the else-arm D carries no test of its own',
+}
+POSITIVE_INPUTS = ['rhol', 'rhor', 'pl', 'pr', 'gamma']
+
+
+def fmt_witness(w):
+    pt, rel = w
+    return ', '.join('%s=%.4g' % (k, v) for k, v in sorted(pt.items()) if k in PARAMS) + ' (relative residual %.2g)' % rel
+
+
 def rule_loop_free(chk, funcs, names):
     n = 0
     for nm in names:
         fn = stripped(funcs[nm])
         ctx = S.Ctx(max_terms=40000, seconds=BUDGET)
+        ctx.pos_atoms.update(POSITIVE_INPUTS)
+        sig = reflection(ctx)
         try:
-            arms = S.arms(lambda: S.Evaluator(ctx, fn, helpers={'SIGN': funcs['SIGN']}, define_terms=1), fn)
-            sig = reflection(ctx)
-            vals = [arm_values(ev) for ev in arms]
-            if not any(rv is not None and rv.is_zero() for p, u, rv in vals):
-                raise AnalysisError('%s: no arm returns 0' % nm)
-            partner = {}
-            for i, (p0, u0, rv) in enumerate(vals):
-                sp, su = ctx.rename(p0, sig), ctx.rename(u0, sig)
-                maybe = []
-                for j, (p2, u2, rv2) in enumerate(vals):
-                    if rv != rv2 or not (ctx.maybe_equal(sp, p2) and ctx.maybe_equal(su, -u2)):
-                        continue
-                    maybe.append(j)
-                    if ctx.prove_zero(sp - p2)[0] and ctx.prove_zero(su + u2)[0]:
-                        partner[i] = j
-                        break
-                inst = '%s:arm%d' % (nm, i)
-                node = arms[i].decisions[-1][0] if arms[i].decisions else funcs[nm]
-                n += 1
-                if i in partner:
-                    j = partner[i]
-                    # the selecting tests must be mirror images too
-                    ti = [c for s, c, taken in arms[i].decisions if taken]
-                    tj = [c for s, c, taken in arms[j].decisions if taken]
-                    tests_ok = True
-                    if ti and tj and len(ti) == len(tj):
-                        si = sorted(str(ctx.rename(c, sig)) for c in ti)
-                        tests_ok = si == sorted(str(c) for c in tj)
-                        if not tests_ok:
-                            tests_ok = all(any(ctx.prove_zero(ctx.rename(c, sig) - d)[0] for d in tj) for c in ti)
-                    chk.decide(tests_ok, 'reflection-symmetry', inst, node=node, file=RS, func=nm,
-                               detail_bad='%s computes the mirror image of %s, but the tests selecting them are not mirror images: the swapped problem is sent to a different formula'
-                                          % (describe(None, arms[i]), describe(None, arms[j])),
-                               detail_ok='mirror image of arm %d (%s): pstar equal, ustar negated, same return code%s' % (j, describe(None, arms[j]), '' if i == j else ', tests mirrored'))
-                    if i != j:
-                        chk.assume('%s: the arms of its case analysis are mutually exclusive and exhaustive (ordering of its wave-speed / velocity estimates, a numeric fact)' % nm)
-                elif maybe:
-                    chk.undecided('reflection-symmetry', inst, node=node, file=RS, func=nm, detail='values agree with arm(s) %s at sample points but no algebraic proof was found' % maybe)
-                else:
-                    chk.violated('reflection-symmetry', inst, node=node, file=RS, func=nm,
-                                 detail='no arm of %s computes the mirror image of %s: swapping the sides and negating the velocities does not give (pstar, -ustar) '
-                                        '[normal forms differ after unfolding every temporary and clearing denominators]' % (nm, describe(None, arms[i])))
-            # equal sides -> common state, arm by arm
-            eq = equal_sides(ctx)
-            for i, (p0, u0, rv) in enumerate(vals):
-                if rv is None or not rv.is_zero():
+            # (1) one identity for the whole function: sum over return sites of [path condition] * value, indicators with an evident sign folded
+            ev = S.Evaluator(ctx, fn, helpers={'SIGN': funcs['SIGN']}, define_terms=1)
+            ev.run()
+            whole = True
+            bad = None
+            for k, sign in (('result[0]', 1), ('result[1]', -1), ('return code', 1)):
+                v = ev.result_of_returns((lambda val, env: val) if k == 'return code' else (lambda val, env, k=k: env.get(k, Poly())))
+                res = ctx.simplify(ctx.rename(v, sig) - v * Poly.const(sign))
+                # a sample point that separates the two orientations settles it (and is reported); otherwise the identity has to be proved
+                w = None if res.is_zero() or ctx.maybe_equal(res, Poly()) else ctx.witness(res, v + Poly.const(1))
+                if w is not None:
+                    whole = False
+                    bad = bad or (k, res, w)
                     continue
-                inst = '%s:arm%d' % (nm, i)
-                try:
-                    okp = ctx.prove_zero(ctx.rename(p0, eq) - ctx.var('pl'))[0]
-                    oku = ctx.prove_zero(ctx.rename(u0, eq) - ctx.var('ul'))[0]
-                except S.Unsupported:
-                    okp = oku = None
-                node = arms[i].decisions[-1][0] if arms[i].decisions else funcs[nm]
-                if (nm, i) in COMMON_STATE_PROVED:
-                    chk.decide(bool(okp and oku), 'common-state', inst, node=node, file=RS, func=nm,
-                               detail_bad='with identical left and right states %s no longer returns (p, u) of that state' % describe(None, arms[i]),
-                               detail_ok='rhor=rhol, pr=pl, ur=ul gives (pl, ul)')
-                elif okp and oku:
-                    chk.note('%s arm %d also returns the common state for equal sides (not frozen as an obligation)' % (nm, i))
+                ok, res = ctx.prove_zero(res)
+                if not ok:
+                    whole = False
+                    w = ctx.witness(res, v + Poly.const(1))
+                    bad = bad or (k, res, w)
+            n += 1
+            if whole:
+                chk.holds('reflection-symmetry', nm, node=funcs[nm], file=RS, func=nm,
+                          detail='f(swap, -u) == (pstar, -ustar, rc) as one algebraic identity over all branches (%d return sites, indicators of evident sign folded)' % len(ev.returns))
+            elif bad[2] is not None:
+                chk.violated('reflection-symmetry', nm, node=funcs[nm], file=RS, func=nm,
+                             detail='%s of the mirrored problem differs: residual with %d terms does not vanish; e.g. at %s the two orientations disagree'
+                                    % (bad[0], len(bad[1].t), fmt_witness(bad[2])))
+            elif nm not in CASE_SPLIT_ASSUMED:
+                chk.undecided('reflection-symmetry', nm, node=funcs[nm], file=RS, func=nm,
+                              detail='the whole-function identity was not proved (residual %d terms) and no admissible sample point separates the two orientations' % len(bad[1].t))
+            if whole or nm not in CASE_SPLIT_ASSUMED or bad[2] is not None:
+                arms = None
+            else:
+                # (2) arm by arm, exclusiveness of the cases assumed
+                arms = S.arms(lambda: S.Evaluator(ctx, fn, helpers={'SIGN': funcs['SIGN']}, define_terms=1), fn)
+                chk.assume('%s: %s' % (nm, CASE_SPLIT_ASSUMED[nm]))
+                vals = [arm_values(e2) for e2 in arms]
+                for i, (p0, u0, rv) in enumerate(vals):
+                    sp, su = ctx.rename(p0, sig), ctx.rename(u0, sig)
+                    partner, maybe = None, []
+                    for j, (p2, u2, rv2) in enumerate(vals):
+                        if rv != rv2 or not (ctx.maybe_equal(sp, p2) and ctx.maybe_equal(su, -u2)):
+                            continue
+                        maybe.append(j)
+                        if ctx.prove_zero(sp - p2)[0] and ctx.prove_zero(su + u2)[0]:
+                            partner = j
+                            break
+                    inst = '%s:arm%d' % (nm, i)
+                    node = arms[i].decisions[-1][0] if arms[i].decisions else funcs[nm]
+                    n += 1
+                    if partner is not None:
+                        ti = [c for s_, c, taken in arms[i].decisions if taken]
+                        tj = [c for s_, c, taken in arms[partner].decisions if taken]
+                        tests_ok = True
+                        if ti and tj and len(ti) == len(tj):
+                            tests_ok = all(any(ctx.prove_zero(ctx.rename(c, sig) - d)[0] for d in tj) for c in ti)
+                        chk.decide(tests_ok, 'reflection-symmetry', inst, node=node, file=RS, func=nm,
+                                   detail_bad='%s computes the mirror image of %s, but the tests selecting them are not mirror images' % (describe(None, arms[i]), describe(None, arms[partner])),
+                                   detail_ok='mirror image of arm %d (%s): pstar equal, ustar negated, same return code, selecting tests mirrored' % (partner, describe(None, arms[partner])))
+                    elif maybe:
+                        chk.undecided('reflection-symmetry', inst, node=node, file=RS, func=nm, detail='values agree with arm(s) %s at sample points but no algebraic proof was found' % maybe)
+                    else:
+                        chk.violated('reflection-symmetry', inst, node=node, file=RS, func=nm,
+                                     detail='no arm of %s computes the mirror image of %s [normal forms differ after unfolding every temporary and clearing denominators]' % (nm, describe(None, arms[i])))
+            # equal sides -> common state
+            eq = equal_sides(ctx)
+            if nm in COMMON_STATE_PROVED:
+                okc = True
+                for k, want in (('result[0]', 'pl'), ('result[1]', 'ul')):
+                    v = ev.result_of_returns(lambda val, env, k=k: env.get(k, Poly()))
+                    okc = okc and ctx.prove_zero(ctx.rename(v, eq) - ctx.var(want))[0]
+                rc = ev.result_of_returns(lambda val, env: val)
+                okc = okc and ctx.prove_zero(ctx.rename(rc, eq))[0]
+                chk.decide(okc, 'common-state', nm, node=funcs[nm], file=RS, func=nm,
+                           detail_bad='with identical left and right states the solver no longer returns (p, u) of that state with return code 0',
+                           detail_ok='rhor=rhol, pr=pl, ur=ul gives (pl, ul), return code 0, over all branches')
         except (S.Unsupported, S.Budget) as e:
             chk.undecided('reflection-symmetry', nm, node=funcs[nm], file=RS, func=nm, detail='prover gave up: %s' % e)
-    chk.floor('arms of loop-free solvers', n, 19)
+    chk.floor('loop-free solvers / arms examined', n, 13)
 
 
-# arms for which "equal sides give the common state" is provable by the algebra at hand today (others are inactive for equal
-# sides - e.g. supersonic arms - or need sign facts the prover does not have); frozen after reading
-COMMON_STATE_PROVED = set([('non_diffusive', 0), ('hllc', 0), ('hllc', 1), ('hllc', 2), ('hllc', 3), ('hlle', 0), ('roe', 0), ('llxf', 0),
-                           ('hllc_ball', 0), ('hllc_ball', 1), ('hllc_ball', 2), ('hllc_ball', 3), ('hll_ball', 0), ('hllsy', 0)])
+# solvers for which "equal sides give the common state" is provable by the algebra at hand today (ducowicz needs sqrt(x^2) = |x| and sign facts the prover
+# does not have); frozen after reading
+COMMON_STATE_PROVED = set(['non_diffusive', 'hllc', 'hlle', 'roe', 'llxf', 'hllc_ball', 'hll_ball', 'hllsy'])
 
 
 # ---------------------------------------------------------------------------------------------------------------------
@@ -583,8 +614,23 @@ def rule_success(chk, funcs, names):
                 if k is not None:
                     form = (type(fails[0].test.ops[0]), k)
             if form is None or not inits:
-                chk.violated('success-implies-converged', nm + ':exhaustion-test', node=fails[0] if fails else succ[0], file=RS, func=nm,
-                             detail='between the loop and `return 0` there must be a test `%s <op> niter + k: return 1` (and %s must be initialised before the loop)' % (ivar, ivar))
+                # another idiom: decidable only when it evidently reads a value that an empty loop never sets
+                tests = [s2 for s2 in post if isinstance(s2, ast.If) and s2.lineno < succ[0].lineno and any(isinstance(r, ast.Return) for r in ast.walk(s2))]
+                read = set(x.id for s2 in tests for x in ast.walk(s2.test) if isinstance(x, ast.Name))
+                set_before = set()
+                for s2 in pre:
+                    for a in ast.walk(s2):
+                        if isinstance(a, ast.Assign) and not (isinstance(a.value, ast.Call) and M.call_name(a.value) == 'declare'):
+                            for tg in a.targets:
+                                set_before.update(x.id for x in ast.walk(tg) if isinstance(x, ast.Name))
+                params = set(a.arg for a in fn.args.args)
+                unset = sorted(v for v in read if v not in set_before and v not in params)
+                if unset or not tests:
+                    chk.violated('success-implies-converged', nm + ':exhaustion-test', node=tests[0] if tests else succ[0], file=RS, func=nm,
+                                 detail=('the test between the loop and `return 0` reads %s, assigned only inside the loop: with niter <= 0 it is unset (0.0 / indeterminate) and success is reported '
+                                         'for a state that was never iterated' % unset) if tests else 'nothing between the loop and `return 0` reports failure for an exhausted or empty loop')
+                else:
+                    chk.error('%s: unrecognised way of reporting failure after the loop (neither a convergence flag nor `%s <op> niter + k`): needs review' % (nm, ivar))
                 continue
             op, k = form
             i0 = inits[-1].value.value
